@@ -199,7 +199,12 @@ Theorem C05_example_document : doc_repr_open ex_now (Some ex_md) ex_items.
 Proof. exact ex_doc_repr. Qed.
 Print Assumptions C05_example_document.
 
-(* ---- the reader on any file: block framing, user-data blocks, times, the ignore option ---- *)
+(* ---- the reader on any file: block framing, user-data blocks, times, the ignore option ----
+   C05_read_spec is a STRUCTURAL lemma, not a fidelity statement: it restates the reader without fuel and block reading
+   (blocks_spec is the reader's own loop body over a list of 128-byte blocks), which is what the proofs about concrete
+   files rest on.  The fidelity statement - the reader returns what a file MEANS, for every rendering of a ground-truth
+   model - is C05_read_rendered (end of this file), whose denotation denote_stl is defined independently of the parser
+   functions' control flow and which is proved through this lemma. *)
 Theorem C05_read_spec : forall (ign : bool) (gb : str) (blocks : list str) (g : gsi),
   length gb = 1024%nat -> Forall (fun p => length p = 128%nat) blocks ->
   parse_gsi gb = Ok g -> nmem (g_cct g) stl_tables_existing = true ->
@@ -331,3 +336,74 @@ Print Assumptions C05_read_rendered_number.
 Theorem C05_read_rendered_text_field : forall lead w s, trim_space s = s -> trim_space (render_text lead w s) = s.
 Proof. exact render_text_trim. Qed.
 Print Assumptions C05_read_rendered_text_field.
+
+(* ---- the model's byte offsets are the offsets probed from the code on this run (audit item: C05_layouts_are_ebu above
+   compares generated constants with literals; these theorems tie the MODEL's functions to the generated tables: the
+   parsers written over a layout table equal the model's parsers when the table is the generated one, and the writers'
+   field sequences have the generated offsets and widths; all by computation, so a layout change in the code breaks them) *)
+From Astisub Require Import Proofs.StlLayout.
+Theorem C05_parse_gsi_uses_generated_layout : forall b, parse_gsi b = parse_gsi_at stl_gsi_parse_layout b.
+Proof. exact parse_gsi_uses_generated_layout. Qed.
+Theorem C05_parse_tti_uses_generated_layout : forall p fps, parse_tti p fps = parse_tti_at stl_tti_parse_layout p fps.
+Proof. exact parse_tti_uses_generated_layout. Qed.
+Theorem C05_gsi_bytes_uses_generated_layout :
+  sort_by_id (offsets gsi_field_ids gsi_widths 0) = stl_gsi_write_layout /\
+  (forall g, gsi_bytes g = concat (gsi_fields g) /\ map (@length N) (gsi_fields g) = gsi_widths).
+Proof. exact gsi_bytes_uses_generated_layout. Qed.
+Theorem C05_tti_bytes_uses_generated_layout :
+  sort_by_id (offsets tti_field_ids tti_widths 0) = stl_tti_write_layout /\
+  (forall fps dsc tcp t, tti_bytes fps dsc tcp t = concat (tti_fields fps dsc tcp t) /\ map (@length N) (tti_fields fps dsc tcp t) = tti_widths).
+Proof. exact tti_bytes_uses_generated_layout. Qed.
+Print Assumptions C05_parse_gsi_uses_generated_layout.
+Print Assumptions C05_parse_tti_uses_generated_layout.
+Print Assumptions C05_gsi_bytes_uses_generated_layout.
+Print Assumptions C05_tti_bytes_uses_generated_layout.
+
+(* ---- the ignore option after a write, re-writing at document level, styled instances under display standards 1 and 2
+   (audit items).  C05_read_ignore: for EVERY file made of a GSI block and whole blocks, reading with the option is reading
+   without it with the programme start set to zero and added back to every time.  C05_write_read_*_ignore: the write->read
+   theorems for the option's other value.  C05_rewrite_keeps_timecodes_*: write d, read the file (either option value),
+   write what was read (any clock): every TTI block carries the in and out timecode bytes of the first file; holds for
+   every representable document (display standard 0 resp. any other) - no further condition: the timecode bytes do not
+   depend on the text.  (wmeta_of / witem_of: the writer's view of what the reader returned.) *)
+From Astisub Require Import Kit.IOW Model.StlIO Proofs.StlRewrite.
+Theorem C05_read_ignore : forall (gb : str) (blocks : list str) (g : gsi) d,
+  length gb = 1024%nat -> Forall (fun p => length p = 128%nat) blocks ->
+  parse_gsi gb = Ok g -> nmem (g_cct g) stl_tables_existing = true ->
+  read_stl false (gb ++ concat blocks) = Ok d -> read_stl true (gb ++ concat blocks) = Ok (unshift_doc d).
+Proof. exact read_ignore_is_unshift. Qed.
+Theorem C05_write_read_open_ignore : forall now md items, doc_repr_open now md items ->
+  exists out, write_stl now md items = Ok out /\
+              read_stl true out = Ok (unshift_doc (read_back (new_gsi now md items) expected_line items)).
+Proof. exact write_read_open_ignore. Qed.
+Theorem C05_write_read_teletext_ignore : forall now md items, doc_repr_ttx now md items ->
+  exists out, write_stl now md items = Ok out /\
+              read_stl true out = Ok (unshift_doc (read_back (new_gsi now md items) expected_ttx_line items)).
+Proof. exact write_read_ttx_ignore. Qed.
+Theorem C05_rewrite_keeps_timecodes_open : forall ign now now' md items, doc_repr_open now md items ->
+  exists d ws ws', read_stl ign (written now md items) = Ok d /\
+    stl_writes now md items = Ok ws /\ stl_writes now' (Some (wmeta_of d)) (map witem_of (rd_items d)) = Ok ws' /\
+    length ws' = length ws /\ timecode_bytes ws' = timecode_bytes ws.
+Proof. exact rewrite_keeps_timecodes_open. Qed.
+Theorem C05_rewrite_keeps_timecodes_teletext : forall ign now now' md items, doc_repr_ttx now md items ->
+  exists d ws ws', read_stl ign (written now md items) = Ok d /\
+    stl_writes now md items = Ok ws /\ stl_writes now' (Some (wmeta_of d)) (map witem_of (rd_items d)) = Ok ws' /\
+    length ws' = length ws /\ timecode_bytes ws' = timecode_bytes ws.
+Proof. exact rewrite_keeps_timecodes_ttx. Qed.
+(* styled runs (italics + underline, boxing, italics; an accented letter, the currency sign) under display standards 1 and
+   2 at 30 frames per second with programme start 10:00:00:00: representable, and both option values read them back *)
+Example C05_example_document_teletext : forall dsc, dsc = stl_s_dscLevel1 \/ dsc = stl_s_dscLevel2 ->
+  doc_repr_ttx ex_now (Some (ex_md_dsc dsc)) ex_items /\
+  exists out, write_stl ex_now (Some (ex_md_dsc dsc)) ex_items = Ok out /\
+    (exists d, read_stl false out = Ok d /\ rd_dsc d = dsc /\
+       map (fun x => (ri_st x, ri_en x, map (map eff) (ri_lines x))) (rd_items d) =
+       map (fun i => (wi_st i, wi_en i, map (map wflags) (wi_lines i))) ex_items) /\
+    (exists d, read_stl true out = Ok d /\ rd_tcp d = 0%Z /\
+       map (fun x => (ri_st x, ri_en x)) (rd_items d) = map (fun i => (wi_st i + 10 * hour_ns, wi_en i + 10 * hour_ns)%Z) ex_items).
+Proof. intros dsc Hd. split; [exact (ex_doc_repr_ttx dsc Hd) | exact (ex_doc_ttx_roundtrip dsc Hd)]. Qed.
+Print Assumptions C05_read_ignore.
+Print Assumptions C05_write_read_open_ignore.
+Print Assumptions C05_write_read_teletext_ignore.
+Print Assumptions C05_rewrite_keeps_timecodes_open.
+Print Assumptions C05_rewrite_keeps_timecodes_teletext.
+Print Assumptions C05_example_document_teletext.
